@@ -108,14 +108,10 @@ def check_guards(ctx, wm: WeaverModel):
     dispatch_fallthrough(ctx, MATCH + '_integral_matching_stretch', 'integral_method', 'integration rule (stretch kernel)', ['trapezoid', 'rectangle'])
     # 7 dataset name
     lfi = ctx.prog.func('traffic_weaver.datasets._base.load_dataset')
-    handlers = [n for n in ast.walk(lfi.node) if isinstance(n, ast.ExceptHandler)]
-    ok = False
-    for h in handlers:
-        names = [h.type.id] if isinstance(h.type, ast.Name) else [e.id for e in getattr(h.type, 'elts', []) if isinstance(e, ast.Name)]
-        if 'AttributeError' in names:
-            ok = any(isinstance(n, ast.Raise) and n.exc is not None and ((isinstance(n.exc, ast.Call) and getattr(n.exc.func, 'id', '') == 'ValueError')
-                                                                          or getattr(n.exc, 'id', '') == 'ValueError') for n in ast.walk(h))
-    ctx.check(ok, 'C20.1', 'unknown dataset name: the failed lookup (AttributeError) is converted to ValueError', '', lfi.loc(), lfi.qualname, 'dataset')
+    from ..datasets_model import unknown_name_outcome
+    raises, returned, _ = unknown_name_outcome(ctx.prog)
+    ok = bool(raises) and all(r == 'ValueError' for r in raises) and not returned
+    ctx.check(ok, 'C20.1', 'unknown dataset name: the failed lookup (AttributeError) is converted to ValueError', f"raises {raises}; returns {returned}", lfi.loc(), lfi.qualname, 'dataset')
     # 8 fixed points
     pfi = ctx.prog.func(MATCH + 'integral_matching_reference_stretch')
     for mode, extra, want in (('values', {'fixed_points_in_x': arr_param('FP', kind='list'), 'fixed_points_indices_in_x': Const(None)}, 2),
